@@ -131,6 +131,25 @@ def run(shard, ctx):
                     ctx.fail("C02:%s.decode.%s" % (c.name, k), "%s built with %s=%#x decodes to %r" % (c.name, k, v, dec.get(k)), wit)
             if bytes(re) != bytes(cmd.cdb):
                 ctx.fail("C02:%s.reencode" % c.name, "marshall(unmarshall(cdb)) = %s, cdb = %s" % (bytes(re).hex(), bytes(cmd.cdb).hex()), wit)
+            # building again on the same instance from the same field values gives the same CDB
+            try:
+                orig_cdb = bytes(cmd.cdb)
+                again = bytes(orig(cmd, **fields))
+                again2 = bytes(orig(cmd, **fields))
+                if again != orig_cdb or again2 != orig_cdb:
+                    ctx.fail("C02:%s.rebuild_on_instance" % c.name, "cmd.build_cdb(same fields) = %s / %s, first build %s" % (again.hex(), again2.hex(), orig_cdb.hex()), wit)
+            except Exception as e:  # noqa: BLE001
+                ctx.fail("C02:%s.roundtrip_raises" % c.name, "second build_cdb raised", wit, exc=e)
+            # the same dict object edited in place and marshalled again reflects the edit
+            if dec:
+                k0 = next((k for k in dec if k != "opcode" and k in widths), None)
+                if k0 is not None:
+                    d_same = dict(dec)
+                    b_a = bytes(cls.marshall_cdb(d_same))
+                    d_same[k0] = d_same[k0] ^ 1
+                    b_b = bytes(cls.marshall_cdb(d_same))
+                    if cls.unmarshall_cdb(b_b).get(k0) != d_same[k0] or b_a != bytes(cmd.cdb):
+                        ctx.fail("C02:%s.edit_in_place_lost" % c.name, "marshalling the same dict object after changing %s in place ignored the change" % k0, wit)
 
         # (2) direct joint assignments, full widths
         names = [k for k in lf if k != "opcode"]
@@ -143,6 +162,18 @@ def run(shard, ctx):
                     assigns.append(d)
         for _ in range(shard["n"]):
             assigns.append({n: gen.rand_value(rng, widths[n]) for n in names})
+        # consecutive assignments whose wide values are congruent modulo 2**61-1 (CPython's int hash modulus)
+        m61 = (1 << 61) - 1
+        for k in names:
+            if widths[k] >= 62:
+                other = {n: gen.rand_value(rng, widths[n]) for n in names}
+                for small, mult in ((0, 1), (1, 1), (7, 8), (4, 4), (0x1234, 5)):
+                    if (small + mult * m61) >> widths[k]:
+                        continue
+                    for v in (small, small + mult * m61, small):
+                        d = dict(other)
+                        d[k] = v
+                        assigns.append(d)
         # neighbour cases: each field at max while neighbours at max and at 0 are covered by ones/zero fills above
         fresh_same_class()
         for d in assigns:
